@@ -41,6 +41,12 @@ def inl(xs, c):
             parts.append('<code>' + esc(x[1]) + '</code>')
         elif k == 'link':
             parts.append('<a href="' + esc(x[2]) + '"' + (' title="' + esc(x[3]) + '"' if x[3] else '') + '>' + inl(x[1], c) + '</a>')
+        elif k == 'reflink':
+            from pbt import gdoc
+            rid, url, title, q = gdoc.ref_def(x[3])
+            lab = x[3] if len(x) < 5 else (x[3], x[3].upper(), x[3].lower())[x[4]]
+            text = inl(x[2], c) if x[1] == 'full' else esc(lab)
+            parts.append('<a href="' + esc(url) + '"' + (' title="' + esc(title) + '"' if title else '') + '>' + text + '</a>')
         elif k == 'auto':
             parts.append('<a href="' + esc(x[1]) + '">' + esc(x[1]) + '</a>')
         elif k == 'img':
@@ -103,12 +109,13 @@ def block(b, c, tight=False):
     if k == 'list':
         tag = 'ul' if b[1] == 'ul' else 'ol'
         items = b[4]
-        loose = (b[2] and len(items) > 1) or any(r for _, r in items)
+        # loose: blank lines between items, a continuation block after a blank line, or a nested list after a blank line
+        loose = (b[2] and len(items) > 1) or any((rb[0] != 'sublist' or rb[2]) for _, r in items for rb in r)
         out = []
         for first, rest in items:
             s = ('<li><p>' + inl(first, c) + '</p>') if loose else ('<li>' + inl(first, c))
             for rb in rest:
-                s += '\n\n' + block(rb, c)
+                s += '\n\n' + block(rb[1] if rb[0] == 'sublist' else rb, c)
             out.append(s + '</li>')
         return '<%s>\n' % tag + '\n'.join(out) + '\n</%s>' % tag
     if k == 'table':
